@@ -15,7 +15,7 @@ RULE = (
     "max(5e-7, 2*u_row), u_row = written precision of the row's own non-integer coefficients; (b) atomic symbols "
     "that are an SI prefix + registered symbol and whose registered name starts with the prefix name: slope(row) "
     "against 10**k*slope(base). (c) the Scalar form: Scalar(x,row) and the product/quotient of component Scalars "
-    "have the same base magnitude, x Hypothesis-generated. Every decomposable row is non-trivial (it relates >= 2 "
+    "have the same base magnitude (left to right, N/D, N*(1/D), (1/D)*N, powers written with **), x Hypothesis-generated; before the sweep a project database that gives shipped symbols other sizes matches them under exponents (nothing it learns may reach another database). Every decomposable row is non-trivial (it relates >= 2 "
     "table rows); distinct key = row symbol."
 )
 ASSUMPTIONS = [
@@ -216,7 +216,23 @@ class Checker:
                 )
 
 
+def _decoy_arithmetic():
+    """A project database that gives shipped symbols other sizes (ft = 2 m, cm = 50 m ...) matches them under exponents
+    before the shipped database does: nothing it learns may be used by another database."""
+    from barril.units import Scalar
+
+    sk = env.skewed_db()
+    with env.pushed(sk):
+        for u, v in (("ft", "m"), ("cm", "m"), ("km", "m"), ("m", "ft"), ("min", "s"), ("h", "s"), ("s", "h")):
+            a, b = Scalar(2.0, u), Scalar(1.0, v)
+            (a * a * a) / (b * b * b)
+            (a * a) * (b * b)
+            1.0 / (a * a) + 1.0 / (b * b)
+
+
 def run_shard(spec, ctx):
+    _decoy_arithmetic()
+    ctx.cls("decoy_database_matched_units_first")
     db = env.new_db("posc")
     with env.pushed(db):
         ch = Checker(ctx, db)
@@ -252,6 +268,7 @@ def run_shard(spec, ctx):
 
 
 def replay(case, ctx):
+    _decoy_arithmetic()
     db = env.new_db("posc")
     with env.pushed(db):
         ch = Checker(ctx, db)
